@@ -302,10 +302,11 @@ def configs(tier, rng):
       jobs.append(('pairs_cover', dict(base, mode='sample', sample=s)))
     for seed in range(3):
       jobs.append(('pairs_cover', dict(base, seed=seed, mode='real')))
-  grid = [0.0, 0.5, 1.0, 3.0]
-  for (nf, nl, rk) in ((3, 2, 2), (4, 2, 3), (4, 3, 2), (5, 3, 2)):
+  grid = [0.0, 0.5, 1.0, 3.0, 7.0]
+  # shapes where a heavily used feature meets full lattices: more lattices of rank 3 than the features fill once
+  for (nf, nl, rk) in ((3, 2, 2), (4, 2, 3), (4, 3, 2), (5, 3, 2), (4, 3, 3), (5, 4, 3), (6, 5, 3)):
     npairs = nf * (nf - 1) // 2
-    for s in range(25 if tier == 'quick' else 300):
+    for s in range((25 if rk == 2 or nl < 3 else 40) if tier == 'quick' else 300):
       r = _pyrandom.Random(1000 * nf + s)
       tors = [r.choice(grid) for _ in range(npairs)]
       laps = [r.choice(grid) for _ in range(nf)]
